@@ -157,7 +157,7 @@ let enumerate vs cs =
 (* ---- instance reading *)
 type opk = OS | OF | OA of con | OD of int * q | OW of int * q | OR of int list | OP of int
 type real = { r_op : int; r_status : string; r_x : q array; r_act : bool array; r_uns : bool array }
-type inst = { id : int; vs : var array; cs : con array; ops : opk array; reals : real list; queries : int list }
+type inst = { id : int; kind : char; vs : var array; cs : con array; ops : opk array; reals : real list; queries : int list }
 
 let split_ws s = List.filter (fun t -> t <> "") (String.split_on_char ' ' (String.trim s))
 let bools_of s = if s = "-" then [||] else Array.init (String.length s) (fun i -> s.[i] = '1')
@@ -165,12 +165,14 @@ let bools_of s = if s = "-" then [||] else Array.init (String.length s) (fun i -
 let read_instances ic : inst list =
   let out = ref [] in
   let cur = ref None in
+  let kind = ref 'I' in
   let vs = ref [] and cs = ref [] and ops = ref [] and reals = ref [] and queries = ref [] in
   (try
     while true do
       let line = input_line ic in
       match split_ws line with
-      | "N" :: id :: _ -> cur := Some (int_of_string id); vs := []; cs := []; ops := []; reals := []; queries := []
+      | "N" :: id :: rest -> cur := Some (int_of_string id);
+          kind := (match rest with [_; _; _; k] when String.length k > 0 -> k.[0] | _ -> 'I'); vs := []; cs := []; ops := []; reals := []; queries := []
       | ["v"; d; w; s] -> vs := { des = q_of_string d; wt = q_of_string w; scl = q_of_string s } :: !vs
       | ["c"; l; r; g; e] ->
           cs := { cl = nat_of_int (int_of_string l); cr = nat_of_int (int_of_string r); gap = q_of_string g; ceq = (e = "1") } :: !cs
@@ -192,7 +194,7 @@ let read_instances ic : inst list =
            | _ -> failwith "bad r line")
       | ["E"] ->
           (match !cur with
-           | Some id -> out := { id; vs = Array.of_list (List.rev !vs); cs = Array.of_list (List.rev !cs);
+           | Some id -> out := { id; kind = !kind; vs = Array.of_list (List.rev !vs); cs = Array.of_list (List.rev !cs);
                                  ops = Array.of_list (List.rev !ops); reals = List.rev !reals; queries = List.rev !queries } :: !out
            | None -> ());
           cur := None
@@ -271,6 +273,19 @@ let () =
             | _ -> false) in
           if not same then Printf.printf "i %d 0 0 64\n" k
         end;
+        (* C02 stationarity (VpscKktB.stationarityb, proved in VpscStationary.v): on EVERY state visited while executing a
+           solve/satisfy op, the multipliers recomputed by the model's own findMinLM walk satisfy the stationarity
+           equation of KKT.v at every variable whose block statistics are up to date; line
+           "q k ok nstates fresh_vars_at_return gap_bound_at_return min_recomputed_multiplier_at_return" *)
+        (match o with
+         | OS | OF when check_inv ->
+             let (_, (st_ok, nst2)) = step_w_chk stationarityb fuel !s op in
+             let qs = function Some q -> Printf.sprintf "%.6e" (float_of_q q) | None -> "none" in
+             (match r with
+              | Ok s' -> Printf.printf "q %d %d %d %d %s %s\n" k (if st_ok then 1 else 0) (int_of_nat nst2)
+                           (int_of_nat (fresh_count s')) (qs (exit_gap s')) (qs (exit_min_lam s'))
+              | _ -> Printf.printf "q %d %d %d 0 none none\n" k (if st_ok then 1 else 0) (int_of_nat nst2))
+         | _ -> ());
         match r with
         | Ok s' ->
             s := s';
@@ -295,6 +310,34 @@ let () =
         | ThrowUnsat c -> alive := false; Printf.printf "m %d throw_unsat %d\n" k (int_of_nat c)
         | OutOfFuel -> alive := false; Printf.printf "m %d out_of_fuel\n" k
       end) inst.ops;
+    (* --- the static Solver model (Vpsc/StaticModel.v) on static instances: line "t k status ..." *)
+    if inst.kind = 'S' then begin
+      let rec first_sf k = if k >= Array.length inst.ops then None else
+        (match inst.ops.(k) with OS -> Some (k, true) | OF -> Some (k, false) | _ -> first_sf (k + 1)) in
+      match first_sf 0 with
+      | None -> ()
+      | Some (k, is_solve) ->
+          let s0 = static_init (Array.to_list inst.vs) (Array.to_list inst.cs) in
+          let (r, tie_at_end) = if is_solve then static_solve_t s0 else static_satisfy_t s0 in
+          (match r with
+           | Ok s' ->
+               let b = base s' in
+               let m = List.length (scons b) in
+               let pos = Array.of_list (final_positions b) in
+               let act = Array.init m (fun j -> act_of b (nat_of_int j)) in
+               Printf.printf "t %d ok T%d W%d P" k (if tie_at_end then 1 else 0) (if act_invb b then 1 else 0);
+               print_qs pos;
+               print_string " B";
+               let label = Hashtbl.create 8 in
+               for i = 0 to n - 1 do
+                 let bb = int_of_nat (blk_of b (nat_of_int i)) in
+                 if not (Hashtbl.mem label bb) then Hashtbl.replace label bb i;
+                 Printf.printf " %d" (Hashtbl.find label bb)
+               done;
+               Printf.printf " A %s\n" (bstr act)
+           | ThrowUnsat c -> Printf.printf "t %d throw_unsat %d T%d\n" k (int_of_nat c) (if tie_at_end then 1 else 0)
+           | OutOfFuel -> Printf.printf "t %d out_of_fuel\n" k)
+    end;
     (* --- verified checkers on the real results *)
     List.iter (fun r ->
       let k = r.r_op in
